@@ -126,6 +126,7 @@ class Block(Node):
             # (variable definitions alone are nothing to keep the block for:
             # inside @media it would be printed as an empty `@media ... {}`)
             if self.inner or any(
+                    p and
                     str(type(p)) != "<class 'lesscpy.plib.variable.Variable'>"
                     for p in self.parsed):
                 return [self] + sibling_media_queries
